@@ -37,6 +37,22 @@ CLAIMS = {
                      "dialect's own fixtures that mention the culprit segment's keywords with the real parser.",
                 note="Trusted: the rule model for AnyNumberOf/Delimited (union/repetition) and the graph walker; greedy partial matches "
                      "and reindent.py's consumer are outside. Template-block indents are covered by C01's balance oracle."),
+    "C05": dict(design_ref="§3 C05", technique=SYM + FORK.replace("through the real CLI on real files", "on the real kernel and, where expressible, by linting rendered SQL in 4 dialects"),
+                text="Anchored kernels only: (1) the real Rule_LT08._eval forward scan never raises for ANY sequence of <=4 (thorough 6) "
+                     "segments of 7 kinds (comma, newline, whitespace, comment, code, CYCLE keyword, bracketed) following a CTE bracket; "
+                     "(2) the real BaseRule.crawl converts an exception raised by _eval at any visited segment into exactly one "
+                     "'Unexpected exception' violation and does not raise.",
+                note="The other ~70 rules' _eval bodies are outside (not encodable as kernels). F2 fixed."),
+    "C06": dict(design_ref="§3 C06", technique=SYM + "; plus z3 Fixedpoint (Datalog) FIRST-set closure over every dialect's live grammar graph",
+                text="(1) For all 28 dialects z3's Datalog engine computes FIRST(node) over the complete grammar graph and shows that the "
+                     "live simple() hint of EVERY hinted element (thousands per dialect) contains every token class the element can start "
+                     "with and that no hinted element can start with a non-enumerable token - i.e. first-token pruning never discards a "
+                     "viable option. (2) Real prune_options over options with arbitrary hints (None / raw sets / type sets) keeps "
+                     "exactly the options whose hint admits the first non-whitespace token. (3) Lexing file B after an arbitrary file A "
+                     "in the same process (class-level BlockTracker state, incl. a block left open) yields the same segments modulo "
+                     "uuid renaming.",
+                note="Assumes leaf parsers' own hints; the parse cache keyed without inherited terminators and equality of whole trees "
+                     "on real SQL are outside (stub-level cache divergences are not replayable through the API)."),
     "C07": dict(design_ref="§3 C07", technique=SYM,
                 text="(1) Real PlaceholderTemplater.process (+ TemplatedFile.__init__ checks) for <=2 (thorough 4) matched parameters at "
                      "arbitrary spans over an opaque source of unbounded length: raw slices tile the source, templated slices tile the "
@@ -102,6 +118,11 @@ CLAIMS = {
                      "file's config never changes a sibling's, a cousin's or the root config. nested_combine over 3 dicts: later wins, "
                      "sections merge, outputs share no mutable object with inputs.",
                 note="toml/pyproject files, path-valued settings and plugin defaults are outside."),
+    "C28": dict(design_ref="§3 C28", technique=SYM + " (finite shape space enumerated through solver-decided forks)",
+                text="Real to_tuple/structural_simplify/as_record on real segment trees of every shape up to depth 2 with duplicate type "
+                     "names, with and without positions: the in-order leaf texts of the record equal the tree's leaves (and concatenate "
+                     "to the text) and the record's nesting equals the tree's.",
+                note="The CLI parse command's human/yaml/json writers are outside."),
     "C29": dict(design_ref="§3 C29", technique="solver-based: z3 Fixedpoint (Datalog) reachability over the live grammar object graph of "
                 "every dialect + z3 regex-inclusion query for lexer totality", engine="z3-direct",
                 text="All 28 bundled dialects are loaded and expanded; every grammar element reachable from the root (elements, Ref targets, "
@@ -116,6 +137,12 @@ CLAIMS = {
                      "applied edits are pairwise disjoint, a conflicting edit is absent entirely; for all positions/lengths/texts "
                      "within <=3 patches x <=2 variants (quick) / <=4 patches (thorough).",
                 note="Patch stream contract as in C10. The legacy un-merged route (LintedFile.source_patches is None) is outside the claim."),
+    "C15": dict(design_ref="§3 C15", technique=SYM + " (finite input space enumerated through solver-decided forks)",
+                text="Real Rule_CP01._handle_segment/_get_fix (inherited by CP02-CP05) on a real keyword token for EVERY text over "
+                     "{a,B,1,_} of length <=3 (thorough 4) x 7 policies x 5 memory states: a produced fix replaces exactly the anchored "
+                     "token, keeps its type and lower(fixed) == lower(raw).",
+                note="Known finding CP_SNAKE (the snake policy inserts underscores) excluded by pattern. Which segments the crawler "
+                     "selects and non-ASCII case maps are outside."),
     "C18": dict(design_ref="§3 C18", technique=SYM + FORK,
                 text="Real cli._paths_fix/_stdin_fix/_handle_unparsable, Linter.lint_paths apply gate, LintedDir.add/discard_fixes..., "
                      "api.simple.fix over real LintedFile objects holding every subset of {TMP, PRS, fixable lint, unfixable lint} "
@@ -183,6 +210,5 @@ NOT_APPLICABLE = {
     "C16": "oracle is SQLite executing the query before/after; no solver model of SQL semantics is within reach",
     "C17": "fixpoint of the whole rule set over arbitrary SQL; not encodable",
 }
-for _p in ["C04", "C05", "C06", "C15", 
-           "C28", "C32"]:
+for _p in ["C04", "C32"]:
     NOT_APPLICABLE.setdefault(_p, "check not built yet (planned, see DESIGN.md §3); not claimed until its harness is committed")
